@@ -101,6 +101,9 @@ FIELD_TEMPLATES = [
     ("Constant", "K", "", "K", 1),
     ("DateTime", "YYYY-MM-DD", "", "2024-02-29", 10),
     ("DateTime", "DD.MM.YY hh:mm", "", "31.12.99 23:59", 14),
+    ("DateTime", "YYYY-MM-DD hh:mm:ss", "", "2024-02-29 00:00:00", 19),
+    # an example with a leading blank: part of the cell, whatever storage the CID comes from
+    ("Text", "", "3", " 38", 3),
     ("Pattern", "A*z", "", "Abcz", 6),
     ("RegEx", "[a-c]+[0-9]?", "", "abc1", 6),
     # rules full of characters that are item delimiters elsewhere (a CID stored as text is comma separated, whatever its cells contain)
@@ -294,6 +297,7 @@ def defects(rnd, rows, info):
         yield "special-field-name", with_row(i, mod(1, "na-me")), i
         yield "keyword-field-name", with_row(i, mod(1, rnd.choice(["class", "for", "None", "lambda"]))), i
         yield "non-ascii-field-name", with_row(i, mod(1, "näme")), i
+        yield "non-ascii-digit-field-name", with_row(i, mod(1, rnd.choice(["a\u0663", "id_\uff11", "n\u0967\u0968_x", "x\u00b2"]))), i
         yield "bad-empty-mark", with_row(i, mod(3, "Y")), i
         yield "unknown-type", with_row(i, mod(5, "NoSuchType")), i
         yield "broken-type", with_row(i, mod(5, "Te xt")), i
